@@ -228,6 +228,12 @@ def runEntry1 (it : Interp1 α) : P String := do
   let trailing := it.data.shape.drop 1
   match (← tok) with
   | "build" => pure "built"
+  | "idx" => do
+    -- consecutive `get_index_left_of` calls: each is `lowerIndex` of the axis, whatever came before
+    let qs ← listOf (scalarTok (α := α))
+    match qs.mapM (fun q => lowerIndex it.xs q) with
+    | .ok is => pure (s!"idxs {is.length} " ++ " ".intercalate (is.map toString)).trimAsciiEnd.toString
+    | .error e => pure (fmtFault e)
   | "scalar" => do
     let q ← scalarTok (α := α)
     pure (withWitness (fmtScalar (epScalar it.at q)) (wit1 it [q]))
@@ -254,6 +260,17 @@ def runEntry2 (it : Interp2 α) : P String := do
   let f : α × α → Except Fault (List α) := fun q => it.at q.1 q.2
   match (← tok) with
   | "build" => pure "built"
+  | "idx" => do
+    let qs ← listOf (scalarTok (α := α))
+    let rec pairs : List α → List (α × α)
+      | x :: y :: rest => (x, y) :: pairs rest
+      | _ => []
+    match (pairs qs).mapM (fun q => do
+        let i ← lowerIndex it.xs q.1
+        let j ← lowerIndex it.ys q.2
+        pure s!"{i} {j}") with
+    | .ok is => pure (s!"idxs {is.length} " ++ " ".intercalate is).trimAsciiEnd.toString
+    | .error e => pure (fmtFault e)
   | "scalar" => do
     let x ← scalarTok (α := α); let y ← scalarTok (α := α)
     pure (withWitness (fmtScalar (epScalar f (x, y))) (wit2 it [(x, y)]))
